@@ -236,14 +236,25 @@ UNSUPPORTED = [('RectanglePixelRegion', 'exact', 5), ('PolygonPixelRegion', 'exa
                ('RectangleAnnulusPixelRegion', 'subpixels', 3), ('compound', 'exact', 5), ('compound', 'subpixels', 3),
                ('PointPixelRegion', 'center', 1), ('PointPixelRegion', 'subpixels', 2), ('PointPixelRegion', 'exact', 1),
                ('LinePixelRegion', 'center', 1), ('LinePixelRegion', 'exact', 1), ('TextPixelRegion', 'center', 1),
-               ('TextPixelRegion', 'subpixels', 4)]
+               ('TextPixelRegion', 'subpixels', 4), ('compound-with-unmaskable-operand', 'center', 1), ('compound-with-unmaskable-operand', 'center', 1),
+               ('compound-with-unmaskable-operand', 'center', 5)]
 INVALID = [('foo', 5), ('', 1), ('Center', 1), ('subpixels', 0), ('subpixels', -1), ('subpixels', 2.5), ('subpixels', '3'), (None, 1)]
 
 
 def run_unsupported(case, obs):
     prng = random.Random(case['rs'])
     cls, mode, n = prng.choice(UNSUPPORTED)
-    if cls == 'compound':
+    if cls == 'compound-with-unmaskable-operand':
+        # a compound one of whose operands (point / line / text, at any depth) has no mask has no mask either
+        leaf = lambda: mask_region_spec(prng, cls=prng.choice(gen.SIMPLE_PIX))
+        bad = gen.pixel_region_spec(prng, cls=prng.choice(['PointPixelRegion', 'LinePixelRegion', 'TextPixelRegion']), size=gen.logu(prng, 1, 20),
+                                    center=(prng.uniform(-25, 25), prng.uniform(-25, 25)))
+        a, b = (leaf(), bad) if prng.random() < 0.5 else (bad, leaf())
+        spec = S.reg('CompoundPixelRegion', region1=a, region2=b, operator=prng.choice(['and', 'or', 'xor']))
+        if prng.random() < 0.3:
+            spec = S.reg('CompoundPixelRegion', region1=leaf(), region2=spec, operator=prng.choice(['and', 'or', 'xor']))
+        obs.count('compounds-with-unmaskable-operand')
+    elif cls == 'compound':
         leaf = lambda: mask_region_spec(prng, cls=prng.choice(gen.SIMPLE_PIX))
         spec = S.reg('CompoundPixelRegion', region1=leaf(), region2=leaf(), operator=prng.choice(['and', 'or', 'xor']))
     else:
